@@ -72,6 +72,23 @@ type emitWalker struct {
 	info *types.Info
 	// isType reports whether a static type is (an implementation of) the signature Type interface
 	typeIface *types.Interface
+	depth     int
+	inline    bool // follow helper functions of the generator's package
+}
+
+// helperToks: the operations emitted by a helper function of the generator's
+// own package (writeContainerSize(id, w)), nil if fo is not one.
+func (w *emitWalker) helperToks(fo *types.Func) []etok {
+	if !w.inline || fo == nil || fo.Pkg() != w.p.Types || w.depth > 3 {
+		return nil
+	}
+	fd := funcDeclOf(w.p, fo)
+	if fd == nil || fd.Body == nil {
+		return nil
+	}
+	w.depth++
+	defer func() { w.depth-- }()
+	return w.block(fd.Body.List)
 }
 
 // memberKey names the receiver of a Marshal/Unmarshal call independently of
@@ -279,12 +296,29 @@ func (w *emitWalker) expr(e ast.Expr) []etok {
 		sel, _ := x.Fun.(*ast.SelectorExpr)
 		if sel == nil {
 			var out []etok
+			if id, ok := x.Fun.(*ast.Ident); ok {
+				if fo, ok := w.info.Uses[id].(*types.Func); ok {
+					out = append(out, w.helperToks(fo)...)
+				}
+			}
 			for _, a := range x.Args {
 				out = append(out, w.expr(a)...)
 			}
 			return out
 		}
 		name := sel.Sel.Name
+		if name != "Marshal" && name != "Unmarshal" && name != "TypeDeclaration" {
+			// a helper method of the generator's own package
+			if fo, ok := w.info.Uses[sel.Sel].(*types.Func); ok && fo.Pkg() == w.p.Types {
+				out := w.helperToks(fo)
+				for _, a := range x.Args {
+					out = append(out, w.expr(a)...)
+				}
+				if len(out) > 0 {
+					return out
+				}
+			}
+		}
 		if (name == "Marshal" || name == "Unmarshal") && w.isTypeValue(sel.X) {
 			dir := "write"
 			if name == "Unmarshal" {
@@ -522,7 +556,7 @@ func runC05(c *core.Ctx) {
 
 	// ------------------------------------------------------------ composite pairs
 	c.Doc("C05.codec-pairs", "Marshal and Unmarshal emitters of every composite type are duals; struct read/write functions cover every member", 4)
-	w := &emitWalker{p: sp, info: sp.TypesInfo, typeIface: typeIface}
+	w := &emitWalker{p: sp, info: sp.TypesInfo, typeIface: typeIface, inline: true}
 	nPairs := 0
 	sc := sp.Types.Scope()
 	for _, tn := range sc.Names() {
